@@ -61,14 +61,30 @@ func TestConcurrency(t *testing.T) {
 	if err != nil {
 		t.Fatal(err)
 	}
-	a, _ := w.Dsm.CreateDataset("a", nil)
-	b, _ := w.Dsm.CreateDataset("b", nil)
-	_ = a
-	_ = b
+	// VERIF_WIDE: more datasets and two batch writers per dataset, all of them bringing in the same
+	// never-seen ids at about the same time (id assertion races between writers of different datasets)
+	wide := os.Getenv("VERIF_WIDE") == "1"
+	names := []string{"a", "b"}
+	nWriters := 3
+	if wide {
+		names = []string{"a", "b", "x", "y"}
+		nWriters = 8
+	}
+	for _, nm := range names {
+		_, _ = w.Dsm.CreateDataset(nm, nil)
+	}
+	var freshCtr int64
 	var mu sync.Mutex
 	var events []linEvent
 	add := func(e linEvent) { mu.Lock(); events = append(events, e); mu.Unlock() }
+	if wide {
+		// volume run: no lock-order recording (its global mutex would serialise the clients)
+		opsPerClient = envInt("VERIF_OPS_WIDE", 200)
+	}
 	verifhook.SetHandler(func(id, arg string) {
+		if wide {
+			return
+		}
 		switch id {
 		case "store.locked", "txn.locked":
 			add(linEvent{K: "lock", G: goid(), Ev: "got", Name: arg})
@@ -109,7 +125,9 @@ func TestConcurrency(t *testing.T) {
 			rnd := rand.New(rand.NewSource(seed*1000 + int64(c)))
 			acked := 0
 			for n := 1; n <= opsPerClient; n++ {
-				add(linEvent{K: "lock", G: goid(), Ev: "op"})
+				if !wide {
+					add(linEvent{K: "lock", G: goid(), Ev: "op"})
+				}
 				parts, err := fn(c, n, rnd)
 				atomic.AddInt64(&progress, 1)
 				if err == nil && parts != nil {
@@ -120,18 +138,32 @@ func TestConcurrency(t *testing.T) {
 		}()
 	}
 	// batch writers: a pair of ids that is only ever written together, in one batch
-	for c := 1; c <= 3; c++ {
+	for c := 1; c <= nWriters; c++ {
 		client(c, func(c, n int, rnd *rand.Rand) ([][2]any, error) {
-			name := []string{"a", "b"}[rnd.Intn(2)]
+			name := names[rnd.Intn(2)]
 			tag := fmt.Sprintf("w%d-%d", c, n)
 			p := rnd.Intn(2)
-			batch := []*server.Entity{ent(fmt.Sprintf("p%dx", p), tag), ent(fmt.Sprintf("p%dy", p), tag)}
+			// an id nobody has used before, brought in by several batch writers at about the same time
+			fresh := fmt.Sprintf("s%d", n)
+			if wide {
+				name = names[c%len(names)]
+				fresh = fmt.Sprintf("s%d", atomic.AddInt64(&freshCtr, 1)/8)
+			}
+			batch := []*server.Entity{ent(fmt.Sprintf("p%dx", p), tag), ent(fmt.Sprintf("p%dy", p), tag), ent(fresh, tag)}
+			items := [][2]string{{fmt.Sprintf("p%dx", p), tag}, {fmt.Sprintf("p%dy", p), tag}, {fresh, tag}}
+			if wide {
+				for _, sfx := range []string{"b", "c"} {
+					batch = append(batch, ent(fresh+sfx, tag))
+					items = append(items, [2]string{fresh + sfx, tag})
+				}
+				batch[2].References[w.PropP+":rel"] = w.EntP + ":r" + fresh
+			}
 			err := w.Dsm.GetDataset(name).StoreEntities(batch)
-			return [][2]any{{name, [][2]string{{fmt.Sprintf("p%dx", p), tag}, {fmt.Sprintf("p%dy", p), tag}}}}, err
+			return [][2]any{{name, items}}, err
 		})
 	}
 	// transactions over {a, b}: the same entity in both datasets, only ever written by transactions
-	for c := 4; c <= 6; c++ {
+	for c := nWriters + 1; c <= nWriters+3; c++ {
 		client(c, func(c, n int, rnd *rand.Rand) ([][2]any, error) {
 			tag := fmt.Sprintf("t%d-%d", c, n)
 			id := fmt.Sprintf("t%d", rnd.Intn(2))
@@ -148,7 +180,7 @@ func TestConcurrency(t *testing.T) {
 		})
 	}
 	// a transaction client that includes core.Dataset and always brings a new id into a
-	client(7, func(c, n int, rnd *rand.Rand) ([][2]any, error) {
+	client(nWriters+4, func(c, n int, rnd *rand.Rand) ([][2]any, error) {
 		tag := fmt.Sprintf("k%d-%d", c, n)
 		id := fmt.Sprintf("k%d", n)
 		m := map[string][]*server.Entity{
@@ -159,7 +191,7 @@ func TestConcurrency(t *testing.T) {
 		return [][2]any{{"a", [][2]string{{id, tag}}}}, err
 	})
 	// manager: create / write / delete a third dataset
-	client(8, func(c, n int, rnd *rand.Rand) ([][2]any, error) {
+	client(nWriters+5, func(c, n int, rnd *rand.Rand) ([][2]any, error) {
 		ds, err := w.Dsm.CreateDataset("c", nil)
 		if err == nil {
 			_ = ds.StoreEntities([]*server.Entity{ent("m", fmt.Sprintf("m%d", n))})
@@ -222,7 +254,7 @@ func TestConcurrency(t *testing.T) {
 	rwg.Wait()
 	close(finished)
 	verifhook.SetHandler(nil)
-	for _, name := range []string{"a", "b"} {
+	for _, name := range names {
 		ds := w.Dsm.GetDataset(name)
 		ch, err := ds.GetChanges(0, 0, false)
 		if err != nil {
@@ -233,6 +265,28 @@ func TestConcurrency(t *testing.T) {
 			items = append(items, [2]string{e.ID[len(w.EntP)+1:], fmt.Sprint(e.Properties[w.PropP+":tag"])})
 		}
 		add(linEvent{K: "feed", Ds: name, Items: items})
+		// what lookups by URI and one listing answer at the end, for every id of the feed
+		var looks [][2]string
+		seen := map[string]bool{}
+		for _, it := range items {
+			if seen[it[0]] {
+				continue
+			}
+			seen[it[0]] = true
+			got := "<absent>"
+			if e, err := w.Store.GetEntity(w.EntP+":"+it[0], []string{name}, true); err == nil && e != nil {
+				got = fmt.Sprint(e.Properties[w.PropP+":tag"])
+			}
+			looks = append(looks, [2]string{it[0], got})
+		}
+		add(linEvent{K: "look", Ds: name, Items: looks})
+		if res, err := ds.GetEntities("", 0); err == nil {
+			var list [][2]string
+			for _, e := range res.Entities {
+				list = append(list, [2]string{e.ID[len(w.EntP)+1:], fmt.Sprint(e.Properties[w.PropP+":tag"])})
+			}
+			add(linEvent{K: "list", Ds: name, Items: list})
+		}
 		cat, err := GoAdapter{}.Catalogue(&Session{W: w})
 		if err == nil {
 			n := cat[name].Items
@@ -258,7 +312,7 @@ func TestConcurrency(t *testing.T) {
 			m["items"] = v
 			delete(m, "items_count")
 		}
-		if e.K == "feed" && e.Items == nil {
+		if (e.K == "feed" || e.K == "look" || e.K == "list") && e.Items == nil {
 			m["items"] = []any{}
 		}
 		_ = enc.Encode(m)
